@@ -217,8 +217,8 @@ Proof.
   rewrite Ld.
   (* the move proper, once the guards are passed: MkDir of the parent, then the rename decides *)
   assert (Raw : forall t2, b_rename pre (n :: s) dst = Some t2 ->
-                exists h, m_move_raw fa (S f) t (n :: s) dst = Some (ROk, t2, h)).
-  { intros t2 Hr. unfold m_move_raw. fold (m_move_raw fa). rewrite (path_eqb_sym (n :: s) dst), Eq, Mk, Hr. eauto. }
+                exists h, m_move_raw fa false (S f) t (n :: s) dst = Some (ROk, t2, h)).
+  { intros t2 Hr. unfold m_move_raw. fold (m_move_raw fa false). rewrite (path_eqb_sym (n :: s) dst), Eq, Mk. cbv iota. rewrite Hr. eauto. }
   assert (Ren : forall X, (match lookup t dst, e with
                            | None, _ => Some (rename_sub pre (n :: s) dst)
                            | Some (F _), F c => Some (set_file (remove_sub pre (n :: s)) dst c)
